@@ -408,6 +408,11 @@ func checkInjectorCalls(fset *token.FileSet, pkgPath string, pos token.Pos, name
 					fset.Position(pos),
 					fmt.Errorf("inject %s: provider for %s uses unexported identifier %s.%s", name, ts, c.pkg.Name(), c.name)))
 			}
+			if !importableFrom(c.pkg.Path(), pkgPath) {
+				ec.add(notePosition(
+					fset.Position(pos),
+					fmt.Errorf("inject %s: provider for %s is declared in internal package %s, which %s cannot import", name, ts, c.pkg.Path(), pkgPath)))
+			}
 			for _, fn := range c.fieldNames {
 				if !ast.IsExported(fn) {
 					ec.add(notePosition(
@@ -1023,8 +1028,13 @@ func accessibleFrom(info *types.Info, node ast.Node, wantPkg string) error {
 			return true
 		}
 		obj := info.ObjectOf(ident)
-		if _, ok := obj.(*types.PkgName); ok {
-			// Local package names are fine, since we can just reimport them.
+		if pn, ok := obj.(*types.PkgName); ok {
+			// Local package names are fine, since we can just reimport them,
+			// unless the package is internal to another tree.
+			if path := pn.Imported().Path(); !importableFrom(path, wantPkg) {
+				unexportError = fmt.Errorf("uses internal package %s", path)
+				return false
+			}
 			return true
 		}
 		if pkg := obj.Pkg(); pkg != nil {
@@ -1036,10 +1046,29 @@ func accessibleFrom(info *types.Info, node ast.Node, wantPkg string) error {
 				unexportError = fmt.Errorf("%s is not declared in package scope", obj.Name())
 				return false
 			}
+			if pkg.Path() != wantPkg && !importableFrom(pkg.Path(), wantPkg) {
+				unexportError = fmt.Errorf("uses internal package %s", pkg.Path())
+				return false
+			}
 		}
 		return true
 	})
 	return unexportError
+}
+
+// importableFrom reports whether the package with the given import path may
+// be imported by package from under Go's rule for internal packages.
+func importableFrom(path, from string) bool {
+	padded := "/" + path + "/"
+	i := strings.LastIndex(padded, "/internal/")
+	if i < 0 {
+		return true
+	}
+	parent := strings.Trim(padded[:i], "/")
+	if parent == "" {
+		return false
+	}
+	return from == parent || strings.HasPrefix(from, parent+"/")
 }
 
 var (
